@@ -88,3 +88,96 @@ Proof.
   - intros a b x [].
   - constructor.
 Qed.
+
+(** * maximality: from the first centre atom no simple chain of unchanged bonds is longer than the returned path *)
+Definition dfs_step (g : its) (f : nat) (node : N) (visited path : list N) (longest : list N) (nb : N) : list N :=
+  if std0 g node nb && negb (LGraph.mem nb (node :: visited))
+  then if (length longest <? length (lre_dfs g f nb (node :: visited) (path ++ [nb])))%nat
+       then lre_dfs g f nb (node :: visited) (path ++ [nb]) else longest
+  else longest.
+
+Lemma lre_dfs_S g f node visited path :
+  lre_dfs g (S f) node visited path = fold_left (dfs_step g f node visited path) (nbrs g node) path.
+Proof. reflexivity. Qed.
+
+Lemma dfs_step_mono g f node visited path longest nb :
+  (length longest <= length (dfs_step g f node visited path longest nb))%nat.
+Proof.
+  unfold dfs_step. destruct (std0 g node nb && negb (LGraph.mem nb (node :: visited))); [|lia].
+  destruct (Nat.ltb_spec (length longest) (length (lre_dfs g f nb (node :: visited) (path ++ [nb])))); lia.
+Qed.
+
+Lemma dfs_fold_mono g f node visited path L : forall longest,
+  (length longest <= length (fold_left (dfs_step g f node visited path) L longest))%nat.
+Proof.
+  induction L as [|nb L IH]; intros longest; simpl; [lia|].
+  etransitivity; [apply (dfs_step_mono g f node visited path longest nb)|apply IH].
+Qed.
+
+Lemma lre_dfs_len_ge (g : its) fuel : forall node visited path ext,
+  zchain g node ext -> NoDup ext -> (forall x, In x ext -> ~ In x (node :: visited)) -> (length ext <= fuel)%nat ->
+  (length path + length ext <= length (lre_dfs g fuel node visited path))%nat.
+Proof.
+  induction fuel as [|f IH]; intros node visited path ext Hz Hnd Hdis Hlen.
+  - destruct ext; simpl in *; lia.
+  - rewrite lre_dfs_S. destruct ext as [|nb ext'].
+    + simpl. rewrite Nat.add_0_r. apply dfs_fold_mono.
+    + destruct Hz as [Hs Hz]. inversion Hnd as [|? ? Hni Hnd']; subst.
+      assert (In nb (nbrs g node)) as Inb by (apply in_nbrs, std0_adj; exact Hs).
+      apply in_split in Inb. destruct Inb as (L1 & L2 & ->). rewrite fold_left_app. cbn [fold_left].
+      set (acc1 := fold_left (dfs_step g f node visited path) L1 path).
+      etransitivity; [|apply dfs_fold_mono].
+      assert (~ In nb (node :: visited)) as Hnb by (apply Hdis; left; reflexivity).
+      unfold dfs_step at 1. rewrite Hs.
+      assert (LGraph.mem nb (node :: visited) = false) as ->.
+      { destruct (LGraph.mem nb (node :: visited)) eqn:M; [|reflexivity]. apply LGraph.mem_spec in M. contradiction. }
+      cbn [negb andb].
+      assert (length (path ++ [nb]) + length ext' <= length (lre_dfs g f nb (node :: visited) (path ++ [nb])))%nat as Hcur.
+      { apply IH; [exact Hz|exact Hnd'| |simpl in Hlen; lia].
+        intros x I [<-|J]; [contradiction|]. apply (Hdis x); [right; exact I|exact J]. }
+      rewrite app_length in Hcur. simpl in Hcur. simpl.
+      destruct (Nat.ltb_spec (length acc1) (length (lre_dfs g f nb (node :: visited) (path ++ [nb])))); lia.
+Qed.
+
+Lemma zchain_nodes (g : its) : wf g -> forall ext u, In u (node_ids g) -> zchain g u ext -> incl ext (node_ids g).
+Proof.
+  intros W. induction ext as [|v r IH]; intros u Iu Hz x I; [destruct I|]. destruct Hz as [Hs Hz].
+  assert (In v (node_ids g)) as Iv.
+  { apply std0_adj in Hs. destruct (adj g u v) as [e|] eqn:A; [|congruence]. apply (wf_adj_iff W) in A.
+    destruct A as [A|A]; destruct (wf_edge_nodes W A) as (P & Q & _); assumption. }
+  destruct I as [<-|I]; [exact Iv|]. exact (IH v Iv Hz x I).
+Qed.
+
+Theorem lre_longest_first (g : its) (n0 : N) (rest ext : list N) : wf g -> In n0 (node_ids g) ->
+  zchain g n0 ext -> NoDup (n0 :: ext) -> (length (n0 :: ext) <= length (lre g (n0 :: rest)))%nat.
+Proof.
+  intros W I0 Hz Hnd. inversion Hnd as [|? ? Hni Hnd']; subst.
+  assert (length (n0 :: ext) <= length (gnodes g))%nat as Hlen.
+  { rewrite <- (map_length fst (gnodes g)). apply NoDup_incl_length; [exact Hnd|].
+    intros x [<-|I]; [exact I0|]. exact (zchain_nodes g W ext n0 I0 Hz x I). }
+  set (p := lre_dfs g (S (length (gnodes g))) n0 [] [n0]).
+  assert (length (n0 :: ext) <= length p)%nat as Hp.
+  { unfold p. change (length (n0 :: ext)) with (length [n0] + length ext)%nat. apply lre_dfs_len_ge; auto.
+    - intros x I [<-|[]]. contradiction.
+    - simpl in Hlen. lia. }
+  unfold lre. cbn [fold_left LGraph.mem existsb]. fold p.
+  assert (forall L (st : list N * list N),
+            (length (snd st) <= length (snd (fold_left (fun (st : list N * list N) n =>
+                                       let '(vis, best) := st in
+                                       if LGraph.mem n vis then st
+                                       else let p := lre_dfs g (S (length (gnodes g))) n vis [n] in
+                                            (p ++ vis, if (length best <? length p)%nat then p else best)) L st)))%nat) as Hmono.
+  { induction L as [|n L IH]; intros [vis best]; [simpl; lia|]. cbn [fold_left]. etransitivity; [|apply IH].
+    destruct (LGraph.mem n vis); [simpl; lia|]. cbn [snd].
+    destruct (Nat.ltb_spec (length best) (length (lre_dfs g (S (length (gnodes g))) n vis [n]))); lia. }
+  etransitivity; [|apply Hmono]. cbn [snd].
+  destruct (Nat.ltb_spec (length (@nil N)) (length p)); simpl in *; lia.
+Qed.
+
+Example C02_lre_longest_nonvacuous :
+  wf ex_its /\ zchain ex_its 1%N [5; 6; 7]%N /\ NoDup [1; 5; 6; 7]%N /\
+  length (lre ex_its (1%N :: [2; 3; 4; 8]%N)) = 4%nat.
+Proof.
+  split; [apply ex_its_wf|]. split; [vm_compute; repeat split|]. split; [|reflexivity].
+  repeat constructor; simpl; intuition discriminate.
+Qed.
